@@ -3,5 +3,7 @@
 set -eu
 cd /verif
 export CARGO_NET_OFFLINE=true
+unset RUSTFLAGS CARGO_ENCODED_RUSTFLAGS CARGO_BUILD_RUSTFLAGS CARGO_BUILD_TARGET RUSTC_WRAPPER CARGO_BUILD_RUSTC_WRAPPER RUSTC CARGO_PROFILE_RELEASE_DEBUG_ASSERTIONS CARGO_PROFILE_RELEASE_OVERFLOW_CHECKS
+export CARGO_TARGET_DIR=/verif/target
 python3 gen_shadow.py
 cd sim && cargo build --release --offline -p yui-sim
